@@ -34,6 +34,7 @@ def cases(draw, tier="quick"):
     P["dup"] = draw(st.booleans())
     P["reorder"] = draw(st.booleans())
     P["gets"] = draw(st.sampled_from(["early", "tape", "late"]))
+    P["extra_msg_gets"] = draw(st.sampled_from([0, 0, 1, 3]))
     n = draw(st.integers(0, 260))
     P["tape"] = draw(st.binary(min_size=n, max_size=n))
     return P
